@@ -593,7 +593,7 @@ theorem groupGet_append (g : Groups) (k v d : Nat) :
       · subst hd; simp [h]
       · simp only [hd, if_false]; exact ih
 
-theorem filter_true' {α : Type} (l : List α) : l.filter (fun _ => true) = l := by
+theorem filter_all_true {α : Type} (l : List α) : l.filter (fun _ => true) = l := by
   induction l with
   | nil => rfl
   | cons a as ih => simp [List.filter_cons, ih]
@@ -655,7 +655,7 @@ theorem expire_datasets_eq (thr now : Int) (disk : List Entry) (r : Reg) :
   rw [hgen]
   simp only [expire]
   have hk := grp_keys (sortCache (scan disk r).entries) []
-  simp only [groupKeys, List.map_nil, List.nil_append, List.contains_nil, Bool.not_false, filter_true'] at hk
+  simp only [groupKeys, List.map_nil, List.nil_append, List.contains_nil, Bool.not_false, filter_all_true] at hk
   have hlen : (grp [] (sortCache (scan disk r).entries)).length = (refsInOrder (sortCache (scan disk r).entries)).length := by
     rw [← hk, List.length_map]
   have hget : ∀ d, groupGet (grp [] (sortCache (scan disk r).entries)) d =
